@@ -138,6 +138,24 @@ pub fn trunc_full_k<C: Case, const N: usize, const S: usize, const K: usize>() {
         Err(e) => { core::mem::forget(e); assert!(false, "C11: full-copy of a truncated stream returns a read error"); }
     }
 }
+/// Deep, heap-building types: the stream ends inside the J-th request of the
+/// deserializer (J an instance constant, every J an instance) — the same event as
+/// "K bytes survive" seen at the `ReadNoStd` boundary.
+pub fn trunc_at_call<C: Case, const N: usize, const S: usize, const J: usize>() {
+    let x = C::make(S);
+    let (s, n) = ser_inner::<C, N, S>(&x);
+    let mut rd = FailAtCall::new(&s.buf[..n], J);
+    let r;
+    {
+        let mut rp = ReaderWithPos::new(&mut rd);
+        r = <C::T>::_deserialize_full_inner(&mut rp);
+    }
+    match r {
+        Ok(v) => { core::mem::forget(v); assert!(!rd.failed, "C11: a stream that ended early was deserialized into a value (full-copy)"); }
+        Err(DE::ReadError) => { assert!(rd.failed, "C11: read error although the stream was complete"); }
+        Err(e) => { core::mem::forget(e); assert!(false, "C11: full-copy of a truncated stream returns a read error"); }
+    }
+}
 pub fn trunc_header_k<C: Case, const EPS: bool, const K: usize>()
 where
     C::T: Serialize + Deserialize,
